@@ -113,6 +113,22 @@ Extension (round 9), TWO MORE CLASSES OF KEYS.
     i) is a different field.  Only the pairs on which the two readings DISAGREE (sharp s vs SS, final sigma) and
     dotless i (a variant of I under upper() only) stay tolerated.  Flavour 'dotted' and the enumerations above.
     The 'lines' routes now cut the text at \\n only (identical for every text of the older workloads).
+
+Extension (round 11), PARSED TEXT THAT REPEATS ONE FIELD IN SEVERAL CASE VARIANTS.
+(8) Start paragraphs parsed (by every route: str, bytes, str / byte line lists, iter_paragraphs(str / bytes), lazy
+    wrapper over a str- / bytes-parsed paragraph, Deb822 and Deb822Dict) from a text in which one field name occurs
+    two, three or four times in DIFFERENT case spellings, interleaved with other fields: A a . a A . A a A (a spelling
+    recurs after another variant) . A a A a . three / four different spellings . A a AA-other A (a DIFFERENT field whose
+    name begins with the repeated name stands between the occurrences) . the group at the head, in the middle, at the
+    end, adjacent or spread . two repeated groups interleaved.  Established on the unchanged tree for all routes: the
+    parser assigns line by line in text order, so the paragraph holds ONE member for the name, spelled as on its FIRST
+    line, at the position of its first line, with the value of its LAST line.  That is CIListMap(lines) - the model
+    the module always used for its starts; only the generators kept such texts out.  The usual histories (all
+    operation kinds through all spellings, copies, 10 dump->parse routes, bulk removals) continue from there under
+    the full observation (`in`, [], get for every spelling of every name, len, list(d), items(), keys(), values(),
+    dump()).  Sources: ``repeat_enum_cases`` (16 line patterns x 10 start configurations x name sets x 3 fixed
+    follow-up scripts) and flavour 'repeat' of ``gen_history``.  Counters ``repeat:*`` / monitor ``M.repeat`` have
+    floors.
 """
 import functools
 import io
@@ -210,7 +226,22 @@ RULE = ('Histories = start state (empty / dict / pair list / parsed from str, by
         'ValueError), dotted:assign-through-lenvariant-adds-no-field, <class>:start:<kind>, <class>:cycle:<route>, '
         '<class>:copy:<route>, <class>:sort:*, <class>:clear / popitem / reinit, blank:parsed:U+XXXX and '
         'blank:cycled:U+XXXX (a name holding exactly this character came out of the parser / went through dump->parse; '
-        'one counter per character), special:nontrivial and monitors M.blank / M.blankb / M.dotted all have floors.')
+        'one counter per character), special:nontrivial and monitors M.blank / M.blankb / M.dotted all have floors.  '
+        '(8) PARSED TEXT THAT REPEATS ONE FIELD IN SEVERAL CASE VARIANTS: start texts in which one name (ASCII, Latin-1, '
+        'dotted capital I, a name holding U+00A0) stands on 2-4 lines in different case spellings (A a, a A, A a A, A a A a, '
+        'A a2 a3 A, ...), interleaved with other fields and with a different field whose name begins with the repeated '
+        'name (A a AA-other A; Foo foo FOO-other Foo), at the head / in the middle / at the end of the paragraph, adjacent '
+        'or spread, one or two repeated groups, parsed by 8 Deb822 routes (str, bytes, str / byte line lists, '
+        'iter_paragraphs(str / bytes), lazy wrapper over a str- / bytes-parsed paragraph) and 2 Deb822Dict routes (lazy '
+        'wrappers).  Reference: the lines are assignments applied in text order (one member, first spelling, position of '
+        'the first line, value of the last line).  Enumerated: 16 line patterns x 10 start configurations x 1 of 4 (quick, '
+        'rotating) / 4 (thorough) name sets x 3 fixed follow-up scripts (look-ups, assignments, re-orders, delete + '
+        're-assign through variants, sorts, copies, dump->parse, popitem, clear, reinit); seeded "repeat" histories (<= 20 / '
+        '30 ops, all profiles, all sort keys, all copy routes, 10 dump->parse routes).  Counters repeat:start:<kind>, '
+        'repeat:shape:<shape> (recurs-after-variant, first-spelling-differs-from-last, 2 / 3 / 4 lines, 3+ spellings, '
+        'prefix-twin-between, adjacent, spread, not-at-head, two-groups), repeat:addressed:<role> (an operation addresses '
+        'the member that came from repeated lines), repeat:variant:<role>, repeat:cycle:<route>, repeat:copy:<route>, '
+        'repeat:removed-then-reassigned, repeat:nontrivial and monitor M.repeat all have floors.')
 ASSUMPTIONS = ['vp.models.cimap.CIListMap (list of pairs, keys folded with str.lower()) is the reference semantics of the statement',
                'domain: field names that the field-name grammar of the unchanged tree accepts (non-empty, none of the '
                'characters colon, space, \\t \\n \\r \\f \\v; not starting with #) and that are ASCII or belong to the judged '
@@ -267,7 +298,17 @@ ASSUMPTIONS = ['vp.models.cimap.CIListMap (list of pairs, keys folded with str.l
                'point (what the documented default key "lower()" gives; casefold() gives the same order on the judged '
                'class); locale-aware collation is not assumed',
                'bytes input / output with non-ASCII names uses UTF-8 (the default encoding of Deb822)',
-               'parsed start texts have case-insensitively unique field names (duplicate fields on input are outside the statement)',
+               'PARSED TEXT REPEATING ONE FIELD IN SEVERAL CASE SPELLINGS (round 11; before, parsed start texts had '
+               'case-insensitively unique names): the parser is read as ASSIGNMENT line by line in text order, i.e. the '
+               'paragraph holds one member for the name, spelled as on its FIRST line ("spelling of the first insertion"), at '
+               'the position of its first line, with the value of its LAST line; the other lines leave no trace (no second '
+               'member, not in len / iteration / views / dump).  Established on the unchanged tree for every route the '
+               'module uses (str, bytes, str / byte line lists, iter_paragraphs(str / bytes), file objects, lazy wrappers, '
+               'Deb822 and Deb822Dict).  A parser that rejects such a text (duplicate fields are not valid in a Debian '
+               'control paragraph) would be reported as start-<kind>/unexpected-<Error>: not assumed to exist, the tree '
+               'accepts them in its default (non-strict) mode, which is the only mode driven.  Lines repeating a name in '
+               'the SAME spelling only occur as the recurrence inside such a group (A a A), never on their own',
+               'prefix twins (FOO-other next to Foo / foo, AA-other next to a / A) are DIFFERENT fields under every reading',
                'order_before/after(k, k) with k absent may raise KeyError or ValueError',
                'sort_fields(key=f): f receives the field name and sorting is stable, as documented ("same semantics as for sorted")',
                'sort_fields(key=f) where f returns the object it was handed (or a container of it): the object may be a '
@@ -649,6 +690,68 @@ SPECIAL_FLOORS = {
                      'dotted:variant:last': 9500, 'dotted:variant:pop': 2100, 'dotted:variant:set': 12000,
                      'dotted:variant:setdefault': 1400, 'dotted:variant:update': 3000, 'special:nontrivial': 87000}},
 }
+# round 11, parsed text repeating one field in several case variants.  quick: about 50 percent of the minimum measured
+# on the unchanged tree over VERIF_SEED 0-3 (small counts at least 4 sigma below it).  thorough: see the report.
+REPEAT_FLOORS = {
+    'quick': {'monitors': {'M.repeat': 6800},
+              'counters': {'repeat:addressed:after-item': 150, 'repeat:addressed:after-ref': 150,
+                           'repeat:addressed:before-item': 220, 'repeat:addressed:before-ref': 310,
+                           'repeat:addressed:del': 210, 'repeat:addressed:first': 310, 'repeat:addressed:get': 180,
+                           'repeat:addressed:in': 100, 'repeat:addressed:last': 230, 'repeat:addressed:pop': 110,
+                           'repeat:addressed:set': 580, 'repeat:addressed:setdefault': 97, 'repeat:addressed:update': 110,
+                           'repeat:copy:Deb822': 56, 'repeat:copy:Deb822Dict': 30, 'repeat:copy:copy': 60,
+                           'repeat:copy:ctor': 58, 'repeat:copy:ctor-dict': 33, 'repeat:copy:ctor-dict-items': 30,
+                           'repeat:copy:ctor-item-list': 29, 'repeat:copy:ctor-items': 29, 'repeat:copy:dict': 7,
+                           'repeat:copy:dict-items': 10, 'repeat:copy:list': 9, 'repeat:copy:list-items': 3,
+                           'repeat:copy:list-keys': 9, 'repeat:copy:list-values': 5, 'repeat:copy:tuple-items': 12,
+                           'repeat:cycle:bytes': 36, 'repeat:cycle:fd-bytes': 37, 'repeat:cycle:fd-text': 38,
+                           'repeat:cycle:file-bytes': 36, 'repeat:cycle:file-text': 36, 'repeat:cycle:iter': 38,
+                           'repeat:cycle:iter-bytes': 38, 'repeat:cycle:lines': 40, 'repeat:cycle:lines-bytes': 38,
+                           'repeat:cycle:str': 39, 'repeat:nontrivial': 420, 'repeat:removed-then-reassigned': 350,
+                           'repeat:shape:2-lines': 160, 'repeat:shape:3+-spellings': 81, 'repeat:shape:3-lines': 230,
+                           'repeat:shape:4-lines': 100, 'repeat:shape:adjacent': 180,
+                           'repeat:shape:first-spelling-differs-from-last': 270,
+                           'repeat:shape:first-value-differs-from-last': 510, 'repeat:shape:not-at-head': 180,
+                           'repeat:shape:not-at-tail': 130, 'repeat:shape:prefix-twin-between': 92,
+                           'repeat:shape:recurs-after-variant': 260, 'repeat:shape:spread': 310,
+                           'repeat:shape:two-groups': 61, 'repeat:start:iter': 42, 'repeat:start:iter-bytes': 39,
+                           'repeat:start:lazy': 81, 'repeat:start:lazy-bytes': 84, 'repeat:start:parsed-bytes': 44,
+                           'repeat:start:parsed-lines': 40, 'repeat:start:parsed-lines-bytes': 40,
+                           'repeat:start:parsed-str': 42, 'repeat:variant:after-item': 61, 'repeat:variant:after-ref': 120,
+                           'repeat:variant:before-item': 210, 'repeat:variant:before-ref': 240, 'repeat:variant:del': 170,
+                           'repeat:variant:first': 200, 'repeat:variant:get': 150, 'repeat:variant:in': 95,
+                           'repeat:variant:last': 190, 'repeat:variant:pop': 100, 'repeat:variant:set': 530,
+                           'repeat:variant:setdefault': 90, 'repeat:variant:update': 110}},
+    'thorough': {'monitors': {'M.repeat': 27000},
+                 'counters': {'repeat:addressed:after-item': 600, 'repeat:addressed:after-ref': 600,
+                              'repeat:addressed:before-item': 880, 'repeat:addressed:before-ref': 1240,
+                              'repeat:addressed:del': 840, 'repeat:addressed:first': 1240, 'repeat:addressed:get': 720,
+                              'repeat:addressed:in': 400, 'repeat:addressed:last': 920, 'repeat:addressed:pop': 440,
+                              'repeat:addressed:set': 2320, 'repeat:addressed:setdefault': 388, 'repeat:addressed:update': 440,
+                              'repeat:copy:Deb822': 224, 'repeat:copy:Deb822Dict': 120, 'repeat:copy:copy': 240,
+                              'repeat:copy:ctor': 232, 'repeat:copy:ctor-dict': 132, 'repeat:copy:ctor-dict-items': 120,
+                              'repeat:copy:ctor-item-list': 116, 'repeat:copy:ctor-items': 116, 'repeat:copy:dict': 28,
+                              'repeat:copy:dict-items': 40, 'repeat:copy:list': 36, 'repeat:copy:list-items': 12,
+                              'repeat:copy:list-keys': 36, 'repeat:copy:list-values': 20, 'repeat:copy:tuple-items': 48,
+                              'repeat:cycle:bytes': 144, 'repeat:cycle:fd-bytes': 148, 'repeat:cycle:fd-text': 152,
+                              'repeat:cycle:file-bytes': 144, 'repeat:cycle:file-text': 144, 'repeat:cycle:iter': 152,
+                              'repeat:cycle:iter-bytes': 152, 'repeat:cycle:lines': 160, 'repeat:cycle:lines-bytes': 152,
+                              'repeat:cycle:str': 156, 'repeat:nontrivial': 1680, 'repeat:removed-then-reassigned': 1400,
+                              'repeat:shape:2-lines': 640, 'repeat:shape:3+-spellings': 324, 'repeat:shape:3-lines': 920,
+                              'repeat:shape:4-lines': 400, 'repeat:shape:adjacent': 720,
+                              'repeat:shape:first-spelling-differs-from-last': 1080,
+                              'repeat:shape:first-value-differs-from-last': 2040, 'repeat:shape:not-at-head': 720,
+                              'repeat:shape:not-at-tail': 520, 'repeat:shape:prefix-twin-between': 368,
+                              'repeat:shape:recurs-after-variant': 1040, 'repeat:shape:spread': 1240,
+                              'repeat:shape:two-groups': 244, 'repeat:start:iter': 168, 'repeat:start:iter-bytes': 156,
+                              'repeat:start:lazy': 324, 'repeat:start:lazy-bytes': 336, 'repeat:start:parsed-bytes': 176,
+                              'repeat:start:parsed-lines': 160, 'repeat:start:parsed-lines-bytes': 160,
+                              'repeat:start:parsed-str': 168, 'repeat:variant:after-item': 244, 'repeat:variant:after-ref': 480,
+                              'repeat:variant:before-item': 840, 'repeat:variant:before-ref': 960, 'repeat:variant:del': 680,
+                              'repeat:variant:first': 800, 'repeat:variant:get': 600, 'repeat:variant:in': 380,
+                              'repeat:variant:last': 760, 'repeat:variant:pop': 400, 'repeat:variant:set': 2120,
+                              'repeat:variant:setdefault': 360, 'repeat:variant:update': 440}},
+}
 # the tolerated-unspecified probes are a fixed list run by every shard: their floors (pairs x 2 classes = one
 # shard's worth, built below) only say "they ran", never anything about their outcome
 
@@ -755,6 +858,36 @@ DOTTED_MIX = [('X-id', 'x-id', 'X-ID', 'x-ID'), ('I', 'i'), ('istanbul', 'Istanb
               ('x-Hd', 'X-HD', 'x-hd'), ('X-jd', 'x-JD', 'X-JD'), ('a', 'A'), ('Foo', 'FOO', 'foo', 'fOO')]
 SPECIAL_ALPHABET = BLANK_A_NAMES + BLANK_B_NAMES + BLANK_TWINS + DOTTED_NAMES + DOTTED_MIX
 
+# ---- round 11 (8): parsed text that repeats one field in several case variants -----------------------------------
+# Names that are repeated on several lines of a start text (each in 2-4 spellings) ...
+REPEAT_GROUPS = [('Foo', 'foo', 'FOO', 'fOO'), ('a', 'A'), ('X-Bar', 'x-bar', 'X-BAR'),
+                 ('Package', 'package', 'PACKAGE', 'pACKAGE'), ('b', 'B'), ('Ab', 'ab', 'AB', 'aB'),
+                 ('X-\xc9pilogue', 'x-\xe9pilogue', 'X-\xc9PILOGUE'), ('X-\u0130d', 'x-i\u0307d', 'X-\u0130D', 'X-I\u0307D'),
+                 ('X\xa0Vcs', 'x\xa0vcs', 'X\xa0VCS')]
+
+
+def _prefix_twins(g):
+    """DIFFERENT fields whose names begin with (a case variant of) the repeated name: 'FOO-other' for Foo, and for
+    one-letter names also the doubled 'AA-other'."""
+    u, lo = g[0].upper(), g[0].lower()
+    out = [(u + '-other', lo + '-other', g[0] + '-Other')]
+    if len(g[0]) == 1:
+        out.append((u + u + '-other', lo + lo + '-other', u + lo + '-Other'))
+    return out
+
+
+REPEAT_TWINS = dict((g[0], _prefix_twins(g)) for g in REPEAT_GROUPS)
+# ... and the fields standing between them
+REPEAT_OTHERS = [('c', 'C'), ('Zed', 'zed', 'ZED'), ('d', 'D'), ('Multi-Arch', 'multi-arch', 'MULTI-ARCH'), ('e', 'E'),
+                 ('Version', 'version', 'VERSION')]
+REPEAT_ALPHABET = REPEAT_GROUPS + [t for g in REPEAT_GROUPS for t in REPEAT_TWINS[g[0]]] + REPEAT_OTHERS
+REPEAT_HISTORIES = {'quick': 420, 'thorough': 26000}
+REPEAT_MAX_OPS = {'quick': 20, 'thorough': 30}
+REPEAT_ENUM_SETS = {'quick': 1, 'thorough': 4}
+REPEAT_START_KINDS = (('Deb822', 'parsed-str'), ('Deb822', 'parsed-bytes'), ('Deb822', 'parsed-lines'),
+                      ('Deb822', 'parsed-lines-bytes'), ('Deb822', 'iter'), ('Deb822', 'iter-bytes'), ('Deb822', 'lazy'),
+                      ('Deb822', 'lazy-bytes'), ('Deb822Dict', 'lazy'), ('Deb822Dict', 'lazy-bytes'))
+
 
 def readings_agree(names):
     """True when str.lower() and str.casefold() induce the SAME equivalence on `names` (the widened judged class:
@@ -839,7 +972,7 @@ def _check_alphabets():
     # (every spelling of every alphabet, its lower / upper / swapcase forms) lower() and casefold() must induce the
     # same equivalence: then "case-insensitive" still has one reading and the model may fold with str.lower().
     universe = set()
-    for table in (SPECIAL_ALPHABET, UNI_ALPHABET, SORT_NAMES) + tuple(NAMES.values()):
+    for table in (SPECIAL_ALPHABET, REPEAT_ALPHABET, UNI_ALPHABET, SORT_NAMES) + tuple(NAMES.values()):
         for g in table:
             for sp in g:
                 universe.update((sp, sp.lower(), sp.upper(), sp.swapcase()))
@@ -854,6 +987,17 @@ def _check_alphabets():
                 raise RuntimeError('C09 alphabet: %r is outside the field-name grammar' % sp)
         if seen.setdefault(g[0].lower(), g) != g:
             raise RuntimeError('C09 alphabet: two special groups fold to %r' % g[0].lower())
+    # ---- round 11: the names of the repeated-field texts (same demands: variants of one name within a group, inside
+    # the grammar, groups pairwise different names - the prefix twins are DIFFERENT fields than the names they extend)
+    seen = {}
+    for g in REPEAT_ALPHABET:
+        for sp in g:
+            if sp.lower() != g[0].lower() or sp.casefold() != g[0].casefold():
+                raise RuntimeError('C09 alphabet: %r is not a case variant of %r' % (sp, g[0]))
+            if ':' in sp or any(x in ' \t\n\r\f\v' for x in sp) or not sp or any(x in BLANK_B for x in sp):
+                raise RuntimeError('C09 alphabet: %r is outside the field-name grammar / the str routes' % sp)
+        if len(set(g)) < 2 or seen.setdefault(g[0].lower(), g) != g:
+            raise RuntimeError('C09 alphabet: repeat group %r has one spelling or folds like another group' % (g,))
     for g in DOTTED_NAMES:
         if len(set(len(sp) for sp in g)) < 2:
             raise RuntimeError('C09 alphabet: %r has no spellings of different length' % (g,))
@@ -982,6 +1126,8 @@ for _tier in FLOORS:
     FLOORS[_tier]['monitors'].update(BULK_MONITOR_FLOOR[_tier])
     FLOORS[_tier]['counters'].update(SPECIAL_FLOORS[_tier]['counters'])
     FLOORS[_tier]['monitors'].update(SPECIAL_FLOORS[_tier]['monitors'])
+    FLOORS[_tier]['counters'].update(REPEAT_FLOORS[_tier]['counters'])
+    FLOORS[_tier]['monitors'].update(REPEAT_FLOORS[_tier]['monitors'])
     for _c, _pairs in TOLERATED.items():
         FLOORS[_tier]['counters']['tolerated:%s' % _c] = len(_pairs) * 2
     FLOORS[_tier]['counters']['tolerated:probes'] = sum(len(_p) for _p in TOLERATED.values()) * 2
@@ -1243,23 +1389,35 @@ def gen_history(r, tier, flavour='classic'):
             names.append(r.choice(UNI_NAMES))
         names = _distinct_groups(names)
         r.shuffle(names)
+    elif flavour == 'repeat':
+        # round 11: one or two names that the start text repeats in several spellings, their prefix twins, other fields
+        reps = r.sample(REPEAT_GROUPS, r.choice([1, 1, 1, 2]))
+        names = list(reps)
+        for g in reps:
+            if r.random() < 0.6:
+                names.append(r.choice(REPEAT_TWINS[g[0]]))
+        names += r.sample(REPEAT_OTHERS, r.choice([0, 1, 2, 2, 3, 4]))
     else:
         allnames = SORT_NAMES if r.random() < 0.5 else NAMES[tier]
         names = r.sample(allnames, r.choice([2, 3, 4, 5, min(7, len(allnames))]))
     special = flavour in SPECIAL_FLAVOURS
+    rich = special or flavour == 'repeat'
     aimed = flavour in ('sortkeys', 'copies')
     cls = cls_start = 'Deb822' if r.random() < 0.85 else 'Deb822Dict'
-    start = gen_start(r, names, cls, flavour)
+    if flavour == 'repeat':
+        start = gen_repeat_start(r, reps, names, cls)
+    else:
+        start = gen_start(r, names, cls, flavour)
     m = CIListMap(start['pairs'])
     if flavour == 'classic':
         profile = PROFILES[r.choice(['balanced', 'balanced', 'small', 'reorder', 'reorder', 'grow'])]
-    elif flavour == 'unicode' or special:
+    elif flavour == 'unicode' or rich:
         profile = dict(PROFILES[r.choice(['balanced', 'balanced', 'small', 'reorder', 'reorder', 'grow', 'sortkeys',
                                           'copies'])])
         for k in ('get', 'in', 'pop', 'setdefault', 'update'):
             profile[k] += 3                    # the rarer operation kinds must meet non-ASCII variants as well
-        if special:
-            profile['cycle'] += 6 if flavour != 'dotted' else 3     # dump -> parse is where a blank in a name can get lost
+        if rich:
+            profile['cycle'] += 6 if flavour not in ('dotted', 'repeat') else 3     # dump -> parse is where a blank in a name can get lost
     else:
         profile = PROFILES[flavour]
     item_want = {'variant': 50, 'exact': 20, 'absent': 15, 'any': 15}
@@ -1270,13 +1428,14 @@ def gen_history(r, tier, flavour='classic'):
         set_want = {'absent': 60, 'variant': 20, 'exact': 10, 'any': 10}
     nops = (r.randint(1, MAX_OPS[tier]) if flavour == 'classic' else
             r.randint(1, UNI_MAX_OPS[tier]) if flavour == 'unicode' else
-            r.randint(1, SPECIAL_MAX_OPS[tier]) if special else r.randint(2, FLAVOUR_MAX_OPS))
-    cycles = SPECIAL_CYCLES_B if flavour == 'blank-b' else SPECIAL_CYCLES if special else CYCLES
+            r.randint(1, SPECIAL_MAX_OPS[tier]) if special else
+            r.randint(1, REPEAT_MAX_OPS[tier]) if flavour == 'repeat' else r.randint(2, FLAVOUR_MAX_OPS))
+    cycles = SPECIAL_CYCLES_B if flavour == 'blank-b' else SPECIAL_CYCLES if rich else CYCLES
     ops = []
     vid = 0
     for _ in range(nops):
         kind = _weighted(r, profile)
-        if ((aimed or flavour == 'unicode' or special) and ops and kind != 'copy' and r.random() < (0.35 if aimed else 0.12)
+        if ((aimed or flavour == 'unicode' or rich) and ops and kind != 'copy' and r.random() < (0.35 if aimed else 0.12)
                 and (ops[-1][0] in REORDERS or ops[-1][0] == 'sort')):
             kind = 'copy'                      # a copy taken right after a re-ordering
         if kind == 'cycle' and cls != 'Deb822':
@@ -1297,7 +1456,7 @@ def gen_history(r, tier, flavour='classic'):
                 ref = _pick(r, m, names, _want(r, item_want))
             op = [kind, k, ref]
         elif kind == 'sort':
-            op = ['sort', _sort_choice(r, 'unicode' if special else flavour)]
+            op = ['sort', _sort_choice(r, 'unicode' if rich else flavour)]
         elif kind == 'copy':
             op = _copy_choice(r, flavour, cls)
             cls = _class_after_copy(cls, op)
@@ -1310,13 +1469,123 @@ def gen_history(r, tier, flavour='classic'):
         else:
             op = ['update', [[_pick(r, m, names, _want(r, set_want)), _value(r, vid * 100 + j)]
                              for j in range(r.randint(1, 3))],
-                  r.choice(['dict', 'pairs', 'Deb822Dict'] if special else ['dict', 'pairs'])]
+                  r.choice(['dict', 'pairs', 'Deb822Dict'] if rich else ['dict', 'pairs'])]
         ops.append(op)
         _apply_to_model(m, op)          # the generator only uses this to aim its next choice
     case = {'cls': cls_start, 'start': start, 'ops': ops}
     if flavour != 'classic':
         case['flavour'] = flavour
     return case
+
+
+def _repeat_spellings(r, g, occ):
+    """`occ` spellings of group g for consecutive lines of one text: at least two different ones; shapes: a spelling
+    RECURS after another variant (A a A, A a A a, A a x A), all different, free."""
+    shape = r.choice(['recur', 'recur', 'distinct', 'free'])
+    if shape == 'distinct' and occ <= len(g):
+        return r.sample(list(g), occ)
+    first = r.choice(g)
+    if shape == 'recur' and occ >= 3:
+        mid = [r.choice([s for s in g if s != first])]
+        while len(mid) < occ - 2:
+            mid.append(r.choice(g))
+        return [first] + mid + [first]
+    out = [first] + [r.choice(g) for _ in range(occ - 1)]
+    if len(set(out)) < 2:
+        out[-1] = r.choice([s for s in g if s != first])
+    return out
+
+
+def _merge_in_order(r, base, items, adjacent=False):
+    """Insert `items` (keeping their order) into the list `base` at random places; adjacent: all at one place."""
+    if adjacent:
+        cuts = [r.randint(0, len(base))] * len(items)
+    else:
+        cuts = sorted(r.randint(0, len(base)) for _ in items)
+    out, j = [], 0
+    for i in range(len(base) + 1):
+        while j < len(items) and cuts[j] == i:
+            out.append(items[j])
+            j += 1
+        if i < len(base):
+            out.append(base[i])
+    return out
+
+
+def gen_repeat_start(r, reps, names, cls):
+    """A start TEXT in which every group of `reps` stands on 2-4 lines in different case spellings, interleaved with the
+    other names of the history (each of those once)."""
+    kinds = [k for c, k in REPEAT_START_KINDS if c == cls]
+    lines = [r.choice(g) for g in names if g not in reps]
+    r.shuffle(lines)
+    lines = lines[:r.choice([0, 1, 2, 3, 4, 5])]
+    for g in reps:
+        occ = r.choice([2, 2, 3, 3, 3, 4])
+        sp = _repeat_spellings(r, g, occ)
+        twins = [t for t in REPEAT_TWINS[g[0]] if t in names and not any(x in t for x in lines)]
+        if twins and occ >= 3 and r.random() < 0.5:
+            # A a AA-other A: the prefix twin right before the last occurrence
+            sp = sp[:-1] + [r.choice(twins[0])] + sp[-1:]
+        lines = _merge_in_order(r, lines, sp, adjacent=r.random() < 0.2)
+    return {'kind': r.choice(kinds), 'pairs': [[k, _value(r, 900 + i)] for i, k in enumerate(lines)],
+            'sep': r.choice([': ', ': ', ':', ':\t', ':  ']), 'lead': r.choice(['', '', '', '\n', '# comment\n', '\n\n'])}
+
+
+# The 16 line patterns of the enumeration.  0 1 2 3 = spellings of the repeated name g (index modulo their number),
+# P p = two spellings of its prefix twin (another field), B b = two spellings of a second repeated name h, o q r = other
+# fields (each once).
+REPEAT_PATTERNS = ('01', '10', '0o1', '010', '0o1q0', '1o0q1', '0o1qPr0', '0101', '0o1q2r0', '0123', 'o0q1', 'o010q',
+                   'Po0q1r0', '0oBq1rb0', 'oq01', '0o1p2q1')
+REPEAT_NAME_SETS = (
+    (REPEAT_GROUPS[0], REPEAT_GROUPS[1], REPEAT_TWINS['Foo'][0], REPEAT_OTHERS[:3]),
+    (REPEAT_GROUPS[1], REPEAT_GROUPS[2], REPEAT_TWINS['a'][1], REPEAT_OTHERS[1:4]),
+    (REPEAT_GROUPS[6], REPEAT_GROUPS[3], REPEAT_TWINS[REPEAT_GROUPS[6][0]][0], REPEAT_OTHERS[2:5]),
+    (REPEAT_GROUPS[7], REPEAT_GROUPS[4], REPEAT_TWINS[REPEAT_GROUPS[7][0]][0], REPEAT_OTHERS[3:6]),
+)
+
+
+def _repeat_script(si, g, h, tw, oth, rot, cls):
+    """Three fixed follow-up scripts.  Every key is addressed through spellings other than the one the first line
+    used; operations on names a pattern does not hold are (valid) rejected operations."""
+    g0, g1, gl = g[0], g[1], g[-1]
+    cyc = lambda i: (['cycle', SPECIAL_CYCLES[(rot + i) % len(SPECIAL_CYCLES)]] if cls == 'Deb822' else
+                     ['copy', COPY_OBJECTS[(rot + i) % 3], 'new'])
+    if si == 0:      # look-ups, assignment and re-orders through variants, dump -> parse, delete and re-assign
+        return [['in', gl], ['get', g1], ['set', gl, 'w0'], ['last', g1], ['first', gl], ['after', g0, oth[0][-1]],
+                ['before', tw[1], g1], cyc(0), ['set', g1, 'w1'], ['setdefault', gl, 'w2'], ['del', g1], ['in', g0],
+                ['get', gl], ['set', gl, 'w3'], ['set', g0, 'w4'], ['sort', 'default'],
+                ['copy', COPY_HOWS[rot % len(COPY_HOWS)], 'old'], ['before', g0, g1]]
+    if si == 1:      # removal of the repeated field first; re-assignment in another spelling; update; bulk removal
+        return [['pop', gl, False], ['in', g0], ['set', g1, 'w0'], ['set', g0, 'w1'], cyc(1), ['before', tw[0], gl],
+                ['del', tw[1]], ['update', [[g0, 'w2'], [h[1], 'w3'], [tw[2], 'w4']], ('dict', 'pairs', 'Deb822Dict')[rot % 3]],
+                ['sort', STORED_KEY_NAMES[rot % len(STORED_KEY_NAMES)]], ['first', g1], ['popitem'], ['get', gl],
+                ['copy', COPY_OBJECTS[rot % len(COPY_OBJECTS)], 'new'], ['last', h[-1]], ['clear'], ['in', g1],
+                ['set', gl, 'w5'], ['set', g0, 'w6']]
+    # dump -> parse / copies straight away, then the same kind of traffic on the new object
+    return [cyc(2), ['get', g1], ['copy', COPY_OBJECTS[(rot + 1) % len(COPY_OBJECTS)], 'new'], ['last', gl],
+            ['set', g1, 'w0'], cyc(5), ['after', h[1], g1], ['before', gl, oth[1][-1]], ['pop', h[-1], True],
+            ['set', h[0], 'w1'], ['sort', 'lower'], ['reinit', REINIT_HOWS[rot % len(REINIT_HOWS)]], ['del', gl],
+            ['setdefault', g1, 'w2'], ['first', g0], cyc(7)]
+
+
+def repeat_enum_cases(ctx):
+    """Every line pattern x every start configuration x name sets x the three follow-up scripts."""
+    idx = 0
+    nsets = REPEAT_ENUM_SETS[ctx.tier]
+    for pi, pat in enumerate(REPEAT_PATTERNS):
+        for ki, (cls, kind) in enumerate(REPEAT_START_KINDS):
+            for si in range(3):
+                for n in range(nsets):
+                    idx += 1
+                    if not ctx.mine(idx):
+                        continue
+                    rot = pi * 7 + ki * 3 + si + n + (ctx.seed if ctx.quick else 0)
+                    g, h, tw, oth = REPEAT_NAME_SETS[(rot if ctx.quick else n) % len(REPEAT_NAME_SETS)]
+                    tok = {'P': tw[0], 'p': tw[1], 'B': h[0], 'b': h[1], 'o': oth[0][0], 'q': oth[1][0], 'r': oth[2][0]}
+                    keys = [g[int(c) % len(g)] if c.isdigit() else tok[c] for c in pat]
+                    st = {'kind': kind, 'pairs': [[k, 's%d' % i] for i, k in enumerate(keys)], 'sep': ': ', 'lead': ''}
+                    yield {'cls': cls, 'start': st, 'ops': _repeat_script(si, g, h, tw, oth, rot, cls), 'enum': True,
+                           'flavour': 'repeat-enum'}
 
 
 ENUM_OPS = [['set', 'a', None], ['set', 'A', None], ['set', 'b', None], ['set', 'c', None],
@@ -1922,11 +2191,22 @@ def cases(ctx):
            ', '.join(n for n, _ in SPECIAL_ENUM_MAPS if not (ctx.quick and n == 'mixed')),
            3 if ctx.quick else len(SPECIAL_ENUM_STARTS), len(SORT_KEYS), SPECIAL_SORT_ORDERS[ctx.tier], len(SORT_ENUM_STARTS),
            SPECIAL_BULK_ENUM_ROUNDS[ctx.tier],
-           ' (quick: of the sort and bulk-removal combinations the half that belongs to the parity of VERIF_SEED)' if ctx.quick else '')]
+           ' (quick: of the sort and bulk-removal combinations the half that belongs to the parity of VERIF_SEED)' if ctx.quick else ''),
+        'parsed text repeating one field in several case variants: %d line patterns (%s; digits = spellings of the '
+        'repeated name, P/p = its prefix twin, B/b = a second repeated name, o/q/r = other fields) x %d start '
+        'configurations (parse routes) x %d of %d name sets x 3 fixed follow-up scripts'
+        % (len(REPEAT_PATTERNS), ' '.join(REPEAT_PATTERNS), len(REPEAT_START_KINDS), REPEAT_ENUM_SETS[ctx.tier],
+           len(REPEAT_NAME_SETS))]
     if ctx.shard == 0:
         yield {'kind': 'repo-tests'}        # the repository's own tests under K1/K2, as one more workload
     for case in tolerated_cases(ctx):       # every shard (= under every ambient); counted, never judged
         yield case
+    # ---- round 11: parsed text that repeats one field in several case variants
+    for case in repeat_enum_cases(ctx):
+        yield case
+    r = ctx.rng('histories', 'repeat')
+    for _ in range(ctx.size(REPEAT_HISTORIES['quick'], REPEAT_HISTORIES['thorough'])):
+        yield gen_history(r, ctx.tier, 'repeat')
     # ---- round 9: names with blank-like characters / case variants of different length
     for case in special_enum_cases(ctx):
         yield case
@@ -2359,6 +2639,48 @@ def check_snapshot(how, snap, m):
     return (aspect, 'got %r, model %r' % (got, exp))
 
 
+def repeated_names(st):
+    """Round 11: the (lower-cased) names that a PARSED start text holds on several lines in at least two different
+    spellings.  (dict / pair-list starts with case variants are the older 'dup_ok' class and not counted here.)"""
+    if st['kind'] in ('empty', 'dict', 'pairs'):
+        return frozenset()
+    sp = {}
+    for k, _ in st['pairs']:
+        sp.setdefault(k.lower(), []).append(k)
+    return frozenset(lk for lk, v in sp.items() if len(set(v)) >= 2)
+
+
+def count_repeat_start(rec, st, rep_names):
+    """Evidence counters: WHICH shapes of repetition the start text has."""
+    rec.count('repeat:start:%s' % st['kind'])
+    keys = [k for k, _ in st['pairs']]
+    low = [k.lower() for k in keys]
+    if len(rep_names) >= 2:
+        rec.count('repeat:shape:two-groups')
+    for lk in rep_names:
+        pos = [i for i, x in enumerate(low) if x == lk]
+        sps = [keys[i] for i in pos]
+        rec.count('repeat:shape:%d-lines' % min(len(pos), 4))
+        if len(set(sps)) >= 3:
+            rec.count('repeat:shape:3+-spellings')
+        if sps[0] != sps[-1]:
+            rec.count('repeat:shape:first-spelling-differs-from-last')      # first or last spelling kept?
+        if any(sps[j] in sps[:j - 1] and sps[j] != sps[j - 1] for j in range(2, len(sps))):
+            rec.count('repeat:shape:recurs-after-variant')                   # A a A
+        if pos[-1] - pos[0] == len(pos) - 1:
+            rec.count('repeat:shape:adjacent')
+        else:
+            rec.count('repeat:shape:spread')
+        if pos[0] > 0:
+            rec.count('repeat:shape:not-at-head')
+        if pos[-1] < len(keys) - 1:
+            rec.count('repeat:shape:not-at-tail')
+        if any(low[i] != lk and low[i].startswith(lk) for i in range(pos[0], pos[-1])):
+            rec.count('repeat:shape:prefix-twin-between')                    # A a AA-other A
+        if st['pairs'][pos[0]][1] != st['pairs'][pos[-1]][1]:
+            rec.count('repeat:shape:first-value-differs-from-last')
+
+
 def execute(rec, case):
     """Run one history.  Returns (violation or None, info):
     violation = (mechanism_key, message, number_of_ops_executed)."""
@@ -2367,7 +2689,8 @@ def execute(rec, case):
     has_dump = case['cls'] == 'Deb822'
     st = case['start']
     ops = case['ops']
-    info = {'variant_use': False, 'restructured': False, 'uni_variant': False, 'special_variant': False}
+    info = {'variant_use': False, 'restructured': False, 'uni_variant': False, 'special_variant': False,
+            'repeat': False}
     # order in which the names of the CURRENT live object were first inserted into it (lower-cased): what an
     # implementation that forgets a re-ordering falls back to.  A copy is "taken after a re-ordering" when the
     # model order differs from it at that moment.
@@ -2404,8 +2727,15 @@ def execute(rec, case):
             for x in blank_chars_of(m.keys()):
                 rec.count('blank:parsed:U+%04X' % ord(x))      # a name holding this character came out of the parser
         rec.mon('M')
+        rep_names = repeated_names(st)
+        if rep_names:
+            info['repeat'] = True
+            count_repeat_start(rec, st, rep_names)
+            rec.mon('M.repeat')
         bad = observe(d, m, universe, has_dump, rec)
         if bad:
+            if rep_names and not bad[0].startswith('repeated-field'):
+                bad = ('repeated-field-in-text/' + bad[0], bad[1])
             return (('start-%s/%s' % (st['kind'], bad[0]), 'after construction: ' + bad[1], 0), info)
 
         for step, op in enumerate(ops):
@@ -2438,6 +2768,22 @@ def execute(rec, case):
                             rec.count('dotted:lenvariant:%s' % role)      # ... through a spelling of another LENGTH
                     else:
                         rec.count('%s:exact:%s' % (c, role))
+            if rep_names:
+                # round 11: the member that came from repeated lines of the start text is addressed (on the start object,
+                # a copy or a re-parsed object alike); a removed and re-assigned name counts until the history ends
+                for pos, x in enumerate(op_keys(op)):
+                    if x.lower() in rep_names:
+                        role = '%s-%s' % (kind, 'ref' if pos else 'item') if kind in ('before', 'after') else kind
+                        if not m.has(x):
+                            rec.count('repeat:absent:%s' % role)
+                            if kind in ('set', 'setdefault', 'update'):
+                                rec.count('repeat:removed-then-reassigned')
+                        else:
+                            rec.count('repeat:addressed:%s' % role)
+                            if m.stored(x) != x:
+                                rec.count('repeat:variant:%s' % role)
+                if kind in ('copy', 'cycle') and any(k.lower() in rep_names for k in m.keys()):
+                    rec.count('repeat:%s:%s' % (kind, op[1]))
             classify_reorder(rec, m, op)
             before_len = len(m)
             keys_before = m.keys()
@@ -2739,6 +3085,8 @@ def execute(rec, case):
                 rec.mon('M.uni')           # full observation of a paragraph holding non-ASCII field names
             for c in set(c for k in m.keys() for c in name_classes(k)):
                 rec.mon('M.' + c)          # ... holding a name of a round-9 class (M.blank, M.blankb, M.dotted)
+            if rep_names:
+                rec.mon('M.repeat')         # ... of a history whose start text repeated a field in several spellings
             if emptied_by is not None:
                 rec.mon('M.after-emptied')  # full observation of an object that has been emptied by a removal
                 if not len(m):
@@ -2899,6 +3247,8 @@ def run_case(ctx, case):
             ctx.count('uni:nontrivial')
         if info['special_variant']:
             ctx.count('special:nontrivial')
+        if info['repeat']:
+            ctx.count('repeat:nontrivial')
     if v is None:
         return
     key, msg, nexec = v
@@ -2929,8 +3279,7 @@ LEVEL_TEXT = ('Runtime monitoring: seeded operation histories (state-aware gener
               'other object is emptied.  Held-on-observed, not a proof: reach is the generated histories.')
 LEVEL_NOTE = ('Trusted: CPython (incl. its Unicode case tables), vp.models.cimap (list model), the tolerant dump reader in '
               'the module.  Domain: field names that are ASCII or consist of letters with one-to-one lower/upper pairs on '
-              'which lower() and casefold() agree, widened to every set of spellings on which lower() and casefold() induce the same equivalence (dotted capital I and its longer lower-case spelling included; sharp s, dotless i, final sigma are counted, not judged), names may hold the blank-like characters the field-name grammar accepts (those that are str.splitlines() boundaries only on byte / line-list routes), values that are valid single/multi-line Deb822 values; parsed starts without duplicate '
-              'fields; order_before/after(k,k) with k absent may raise either error; which member popitem() removes is not demanded.')
+              'which lower() and casefold() agree, widened to every set of spellings on which lower() and casefold() induce the same equivalence (dotted capital I and its longer lower-case spelling included; sharp s, dotless i, final sigma are counted, not judged), names may hold the blank-like characters the field-name grammar accepts (those that are str.splitlines() boundaries only on byte / line-list routes), values that are valid single/multi-line Deb822 values; parsed starts may repeat a field in different case spellings (read as assignments in text order: first spelling and position, last value); order_before/after(k,k) with k absent may raise either error; which member popitem() removes is not demanded.')
 TECHNIQUE = ('runtime monitoring: history + executable list model at the public mapping interface (deciding monitor M, '
              'full state comparison after every operation incl. rejected ones); auxiliary contract/invariant monitors '
              'K1 (LinkedList) and K2 (OrderedSet) on every underlying call')
